@@ -331,6 +331,7 @@ pub fn decode_values(ocf: &Ocf, rs: &RSchema) -> Result<Vec<Val>, String> {
 	for (bi, blk) in ocf.blocks.iter().enumerate() {
 		let mut d = Dec::new(&blk.raw);
 		d.lenient_varint = true;
+		d.budget = 5_000_000usize.saturating_sub(out.len());
 		for k in 0..blk.count {
 			out.push(decode(rs, 0, &mut d, 0).map_err(|e| format!("block {bi} object {k}: {e:?}"))?);
 		}
